@@ -250,7 +250,7 @@ def work(item):
 
 def main(tier, seed):
     t0 = time.time()
-    d_single, d_pair = (3, 2) if tier == "quick" else (5, 3)
+    d_single, d_pair = (3, 2) if tier == "quick" else (4, 3)
     items = []
     L = layouts(tier)
     for li, lay in enumerate(L):
@@ -258,7 +258,7 @@ def main(tier, seed):
         hs = R.histories(d_single if li == 0 else d_single - 1)
         for i in range(0, len(hs), 6):
             items.append(dict(layout=lay, histories=hs[i:i + 6], kind="single"))
-        hp = R.histories(d_pair)
+        hp = R.histories(d_pair if li == 0 else 2)
         for i in range(0, len(hp), 2):
             items.append(dict(layout=lay, histories=hp[i:i + 2], kind="pair"))
     # (a) slow loop (0.3 s period > error_report_interval): faults on calls that are 0.6 s or more apart
